@@ -699,6 +699,15 @@ class Node:
         limit = app.affinity.limits[self.level]
         return count < limit
 
+    def check_app_affinity_limit_up(self, app):
+        """Check app affinity limits on the node and on every level above it.
+        """
+        if not self.check_app_affinity_limit(app):
+            return False
+        if self.parent:
+            return self.parent.check_app_affinity_limit_up(app)
+        return True
+
     def put(self, _app):
         """Abstract method, should never be called.
         """
@@ -1693,7 +1702,8 @@ class Cell(Bucket):
 
                 evicted_from, app_expiry = evicted[app]
                 del evicted[app]
-                if evicted_from.restore(app, app_expiry):
+                if (evicted_from.check_app_affinity_limit_up(app) and
+                        evicted_from.restore(app, app_expiry)):
                     app.evicted = False
                     continue
 
@@ -1734,8 +1744,12 @@ class Cell(Bucket):
                                             evicted_app.placement_expiry)
                     evicted_app_server.remove(evicted_app.name)
 
-                    # TODO: we need to check affinity limit constraints on
-                    #       each level, all the way to the top.
+                    # The app is put directly on the server, bypassing the
+                    # buckets: check affinity limit constraints on each level,
+                    # all the way to the top.
+                    if not evicted_app_server.check_app_affinity_limit_up(app):
+                        continue
+
                     if evicted_app_server.put(app):
                         break
 
